@@ -167,7 +167,7 @@ def run_case(R, rng, it):
     import hdc.algo  # noqa
 
     st = importlib.import_module("hdc.algo.ops.stats")
-    n = int(rng.choice([10, 12, 24, 36, 60, 120]))
+    n = int(rng.choice([10, 12, 24, 36, 60, 120])) if it % 40 != 7 else 1100  # > 1000 steps: numpy abbreviates the repr of such arrays
     tix = gen_axis(rng, n)
     dtype = "int16" if it % 2 == 0 else "float32"
     ny, nx = int(rng.integers(1, 3)), int(rng.integers(1, 3))
@@ -233,6 +233,32 @@ def run_case(R, rng, it):
     if odt is not None:
         kw["dtype"] = odt
     check_case(R, rng, tix, cube, dtype, nodata, kw, begin, end, ids if grouped else None)
+    # a twin right afterwards: same length, same first and last step, same window arguments and group count, but other
+    # dates / another labelling in between - whatever the first call left behind in the process must not serve the second
+    if n >= 8 and (H.pick(it, 6, 2) or n > 1000):
+        vals = tix.values.astype(np.int64)  # in the axis' own unit (the twin keeps dtype and unit)
+        e_ = 3 if n > 12 else 1  # the first / last steps that stay as they are
+        lo_, hi_ = vals[e_ - 1] + 1, vals[n - e_]
+        inner = np.sort(rng.integers(lo_, hi_, n - 2 * e_)) if hi_ - lo_ > n else vals[e_:n - e_]
+        tw = np.concatenate([vals[:e_], inner, vals[n - e_:]])
+        if n > 1000:
+            R.count("twin_cases_beyond_1000_steps")
+        if np.unique(tw).size == n:
+            tix2 = pd.DatetimeIndex(tw.astype(tix.values.dtype))
+            kw2 = dict(kw)
+            ids2 = None
+            if grouped:
+                k = int(ids.max()) + 1
+                ids2 = ids.copy()
+                mid = np.arange(3, n - 3)
+                if mid.size > 1:
+                    ids2[mid] = ids[rng.permutation(mid)]  # same labels at both ends, another assignment in between
+                if np.unique(ids2).size == k:
+                    kw2["groups"] = [dict(zip(ids.tolist(), labels))[int(g)] for g in ids2]
+                else:
+                    ids2 = ids
+            R.count("twin_cases")
+            check_case(R, rng, tix2, cube, dtype, nodata, kw2, begin, end, ids2 if grouped else None)
 
 
 def _enc(v):
@@ -397,7 +423,7 @@ def finalize(agg, tier):
     c = agg["counters"]
     out = []
     for k in ("contract_get_calibration_indices", "contract_to_linspace", "valid_windows", "invalid_windows", "multi_group_calls", "relabel_pairs",
-              "single_group_vs_ungrouped", "cubes_compared", "ungrouped_calls", "helper_direct_calls"):
+              "single_group_vs_ungrouped", "cubes_compared", "ungrouped_calls", "helper_direct_calls", "twin_cases"):
         if c.get(k, 0) == 0:
             out.append(f"monitor/class {k} never observed")
     return out
